@@ -129,6 +129,65 @@ theorem imp_assoc {n : Nat} {X Y Z : PB} (hX : WF n X) (hY : WF n Y) (hZ : WF n 
     have : [X, Y, Z].Perm ([Y, Z] ++ [X]) := List.perm_append_comm (l₁ := [X]) (l₂ := [Y, Z])
     simpa using this) hl
 
+/-! ## ★ absorption, the order recovered from join / meet, monotonicity (the remaining lattice laws) -/
+
+/-- `X.imp(X.env(Y)) = X`: the imposition never raises against an envelope of its own operand -/
+theorem imp_env_absorb {n : Nat} {X Y E : PB} (hX : WF n X) (hY : WF n Y) (h : env n X Y = .ok E) :
+    imp n X E = .ok X := by
+  obtain ⟨wE, sXE, -⟩ := env_upper hX hY h
+  have hsel : ∃ z, Sel X z ∧ Sel E z :=
+    ⟨X.left, ⟨PLe.rfl _, hX.le⟩, sel_of_sub sXE ⟨PLe.rfl _, hX.le⟩⟩
+  obtain ⟨F, hF⟩ := (imp_raises_iff hX wE).2.1.mpr hsel
+  have h1 : Sub F X := (imp_lower hX wE hF).1
+  have h2 : Sub X F := imp_greatest hX wE hF (Sub.rfl X) sXE
+  rw [hF, Sub.antisymm h1 h2]
+
+/-- `X.env(X.imp(Y)) = X` whenever the imposition exists -/
+theorem env_imp_absorb {n : Nat} {X Y E : PB} (hX : WF n X) (hY : WF n Y) (h : imp n X Y = .ok E) :
+    env n X E = .ok X := by
+  obtain ⟨-, wE, -⟩ := imp_pointwise hX hY h
+  have sEX : Sub E X := (imp_lower hX hY h).1
+  have hF := env_ok hX wE
+  have h1 : Sub X (envSpec X E) := (env_upper hX wE hF).2.1
+  have h2 : Sub (envSpec X E) X := env_least hX wE hF (Sub.rfl X) sEX
+  rw [hF, Sub.antisymm h2 h1]
+
+/-- containment is recovered from the join: `Y` contains `X` iff `X.env(Y) = Y` -/
+theorem sub_iff_env {n : Nat} {X Y : PB} (hX : WF n X) (hY : WF n Y) : Sub X Y ↔ env n X Y = .ok Y := by
+  constructor
+  · intro h
+    have hF := env_ok hX hY
+    have h1 : Sub Y (envSpec X Y) := (env_upper hX hY hF).2.2
+    have h2 : Sub (envSpec X Y) Y := env_least hX hY hF h (Sub.rfl Y)
+    rw [hF, Sub.antisymm h2 h1]
+  · intro h; exact (env_upper hX hY h).2.1
+
+/-- … and from the meet: `Y` contains `X` iff `X.imp(Y) = X` -/
+theorem sub_iff_imp {n : Nat} {X Y : PB} (hX : WF n X) (hY : WF n Y) : Sub X Y ↔ imp n X Y = .ok X := by
+  constructor
+  · intro h
+    have hsel : ∃ z, Sel X z ∧ Sel Y z := ⟨X.left, ⟨PLe.rfl _, hX.le⟩, sel_of_sub h ⟨PLe.rfl _, hX.le⟩⟩
+    obtain ⟨F, hF⟩ := (imp_raises_iff hX hY).2.1.mpr hsel
+    have h1 : Sub F X := (imp_lower hX hY hF).1
+    have h2 : Sub X F := imp_greatest hX hY hF (Sub.rfl X) h
+    rw [hF, Sub.antisymm h1 h2]
+  · intro h; exact (imp_lower hX hY h).2
+
+/-- the envelope is monotone in both operands -/
+theorem env_mono {n : Nat} {X Y X' Y' E E' : PB} (hX : WF n X) (hY : WF n Y) (hX' : WF n X') (hY' : WF n Y')
+    (sX : Sub X X') (sY : Sub Y Y') (h : env n X Y = .ok E) (h' : env n X' Y' = .ok E') : Sub E E' := by
+  obtain ⟨-, a, b⟩ := env_upper hX' hY' h'
+  exact env_least hX hY h (Sub.trans sX a) (Sub.trans sY b)
+
+/-- the imposition is monotone in both operands: widening operands that meet cannot make them miss each
+other, and the result only widens -/
+theorem imp_mono {n : Nat} {X Y X' Y' E : PB} (hX : WF n X) (hY : WF n Y) (hX' : WF n X') (hY' : WF n Y')
+    (sX : Sub X X') (sY : Sub Y Y') (h : imp n X Y = .ok E) : ∃ E', imp n X' Y' = .ok E' ∧ Sub E E' := by
+  obtain ⟨-, -, -, s1, s2⟩ := imp_pointwise hX hY h
+  obtain ⟨E', hE'⟩ := (imp_raises_iff hX' hY').2.1.mpr ⟨E.left, sel_of_sub sX s1, sel_of_sub sY s2⟩
+  obtain ⟨a, b⟩ := imp_lower hX hY h
+  exact ⟨E', hE', imp_greatest hX' hY' hE' (Sub.trans a sX) (Sub.trans b sY)⟩
+
 /-! ## ★ the public functions: fold over 1..k operands of mixed kinds, any listing order -/
 
 /-- a family that is not made of intervals only: `envelope` returns the least p-box containing the
@@ -439,6 +498,14 @@ example : ∃ z, Sel exX z ∧ Sel exY z := ((imp_raises_iff exX_wf exY_wf).2.1)
 example : ¬ ∃ z, Sel exX z ∧ Sel exZ z := ((imp_raises_iff exX_wf exZ_wf).1).mp (by decide +kernel)
 example : Sub exX ⟨[0, 2, 3], [2, 3, 5]⟩ := (env_upper exX_wf exY_wf (by decide +kernel)).2.1
 example : (env 3 exX exY >>= fun E => env 3 E exZ) = .ok ⟨[0, 2, 3], [3, 4, 6]⟩ := by decide +kernel
+/-- absorption on concrete boxes (the hypotheses are met and the executable functions agree) -/
+example : imp 3 exX ⟨[0, 2, 3], [2, 3, 5]⟩ = .ok exX := imp_env_absorb exX_wf exY_wf (by decide +kernel)
+example : imp 3 exX ⟨[0, 2, 3], [2, 3, 5]⟩ = .ok exX := by decide +kernel
+example : env 3 exX ⟨[1, 5/2, 3], [1, 3, 4]⟩ = .ok exX := env_imp_absorb exX_wf exY_wf (by decide +kernel)
+example : env 3 exX ⟨[1, 5/2, 3], [1, 3, 4]⟩ = .ok exX := by decide +kernel
+/-- the order is NOT total: neither `exX ⊆ exY` nor the converse, seen through `sub_iff_env` -/
+example : ¬ Sub exX exY := fun h => by
+  have := (sub_iff_env exX_wf exY_wf).mp h; revert this; decide +kernel
 
 /-- a mixed family: interval, number, p-box -/
 def exFam : List Opnd := [.ivl 1 2, .num 3, .box exX]
